@@ -636,7 +636,8 @@ def _fault_phase(ctx, rec, all_a, deep):
     fi = 0
     plans = []
     for m in (True, False):
-        for s in sites[m]:
+        # later occurrences first: they strike in a later step of a row, after earlier steps have been converted
+        for s in sorted(sites[m], key=lambda x: (-x[2], x[1])):
             plans.append((m, [s]))
     for m in (True, False):                     # a few two-fault runs: two different rows of the same call
         ss = sites[m]
